@@ -640,9 +640,10 @@ _upd("C06", "The ITERATIVE find of tree.go (the loop as written: program points 
      "find_iter_terminates); ServeHTTP around it (trailing-slash redirect 301/307, HandleMethodNotAllowed 405 over the other method trees, NoRoute "
      "404, 400) is modelled and the dispatch theorem is transferred to it with the no-handler outcome characterised (dispatch_selected_iter, "
      "no_match_no_handler). The correspondence check now runs the iterative model against the real engine, status included, under all 32 settings "
-     "of RedirectTrailingSlash/HandleMethodNotAllowed/UseRawPath/UnescapePathValues/RemoveExtraSlash. One clause is false of the code and kept as a "
-     "negated witness (dispatch_selected_iter_fails_at, known finding C06-unescape-backtrack: with UseRawPath and UnescapePathValues a handler runs "
-     "for a path no pattern matches). RouterGroup path assembly (joinPaths, lastChar, path.Join, path.Clean) is modelled, held to the real functions, "
+     "of RedirectTrailingSlash/HandleMethodNotAllowed/UseRawPath/UnescapePathValues/RemoveExtraSlash. The dispatch theorems hold at full strength "
+     "for every option setting, unescaping included (the find of 59ce9b1 keeps the raw text while searching and unescapes in the epilogue: "
+     "find_iter_eq_rec_unescape, params_are_unescaped_substrings); the former finding C06-unescape-backtrack (a handler ran for a path no pattern "
+     "matches) is repaired in /repo and its three witnesses are a regression theorem (dispatch_selected_iter_repaired) and corpus cases. RouterGroup path assembly (joinPaths, lastChar, path.Join, path.Clean) is modelled, held to the real functions, "
      "and registration through any nesting of groups is proved to be registration of the flat list of absolute patterns "
      "(route_set_semantics_groups, group_path_is_join, group_path_no_panic).",
      "the recursive formulation of the iterative find (validated by the correspondence)",
@@ -657,7 +658,7 @@ PROPS["C06"]["rule"] += (" X06: the same observation under every one of the 32 o
                          "RouterGroup nestings of depth 0..2 (3) over 17 prefixes incl. '', '/', 'a', '/a/', '//a', 'a//b', '/:x', '/*y', '/a/../b', '.', '..' "
                          "plus random ones (op grp), path.Clean on all strings of length <=6 (9) over {/ . a} and random byte strings (op pclean), path.Join pairs (op pjoin).")
 PROPS["C06"]["assumptions"][0] = "node.parent is the node that holds the child (maintained by insert; the iterative model keeps the ancestor chain)"
-PROPS["C06"]["assumptions"][2] = "RedirectFixedPath is off; theorems about dispatch assume values are not unescaped (UseRawPath off or UnescapePathValues off) - with both on the code is wrong (known finding); fewer than 65536 bytes per pattern"
+PROPS["C06"]["assumptions"][2] = "RedirectFixedPath is off; fewer than 65536 bytes per pattern"
 _upd("C07", "Equality of the normalizePath model with the decode-once-then-resolve-with-a-stack reference (normalize_eq_reference) and "
      "containment of the CleanPath model (cleanPath_contained) are proved for every byte string.",
      "Not proved: equality with the stack reference (checked per case), CleanPath containment (checked per case).",
